@@ -516,6 +516,10 @@ impl<'a> Gen<'a> {
         // (huge receivers: `delete` along an axis refuses an index only inside the lane function — the model's apply_along_axis needs ~10 s there)
         if !self.skip.is_empty() && key == "ArrayManipulate.delete" && toks.get(1).map_or(false, |t| t != "none") { return; }
         if !self.skip.is_empty() && (self.skip.contains(tr) || self.skip.contains(&key) || self.skip.contains(&format!("{cls}.{key}"))) { return; }
+        // (huge receivers: the unknown-NAME lines of sort / argsort stop at 20 000 elements.  On /repo the name is refused before anything is
+        // sorted; once a changed parser accepts it the crate's own quicksort runs on the ascending sample and needs n^2/2 words - 2 GB and
+        // 1.5 s per line at 20 000 elements, 20 GB at 70 000: seeded change C09-r2-m2 exhausted the machine's memory in the deep search)
+        if !self.skip.is_empty() && tr == "ArraySort" && toks.len() == 3 && (toks[2] == "str" || toks[2] == "string") && matches!(toks[0].as_str(), "none" | "0" | "-1") && s.iter().product::<usize>() > 20000 { return; }
         if self.suffix.is_empty() { self.seen.entry(key).or_default().insert(cls.to_string()); }
         else {
             match self.only { Only::ResImpl if !self.res_keys.contains(&key) => return, Only::Generic if !self.gen_keys.contains(&key) => return, _ => {} }
@@ -1043,8 +1047,8 @@ fn gen_giant(g: &mut Gen, thorough: bool) {
             e("ArrayIndexing", "slice", &[st("0"), (i + 1).to_string()]);
         }
         for p in 0..r { for v in [s[p], s[p] + 1] { let mut c = vec![0usize; r]; c[p] = v; e("ArrayIndexing", "index_at", &[l(&c)]); e("ArrayIndexing", "at", &[l(&c)]); } }
-        let bound = if r == 1 { n } else { s[0] };
-        e("ArrayIndexing", "indices_at", &[bound.to_string()]);
+        // (indices_at on rank >= 2 cuts the receiver into its sub-arrays before it looks at the index: 2 s on [2,8388609], 38 s on [4097,4097])
+        if r == 1 { e("ArrayIndexing", "indices_at", &[n.to_string()]); }
         for sh in [vec![n + 1], vec![n - 1], vec![2, n / 2 + 1]] { e("ArrayManipulate", "reshape", &[l(&sh)]); }
         e("ArrayBroadcast", "broadcast_to", &[l(&{ let mut t = s.clone(); t[r - 1] += 1; t })]);
         for ax in [r, r + 1] {
